@@ -331,13 +331,34 @@ impl Walrus {
                         }
                         let mut maybe_persist = None;
                         if checkpoint {
-                            info.tail_block_id = active_block.id;
-                            info.tail_offset = new_off;
-                            maybe_persist = if self.should_persist(&mut info, false) {
-                                Some((tail_block_id | TAIL_FLAG, new_off))
+                            // If the writer sealed this block while it was being read, it is
+                            // part of the sealed chain now and the progress belongs there;
+                            // recording it as tail progress would deliver the entry again.
+                            let sealed_idx = info.chain.iter().position(|b| b.id == active_block.id);
+                            if let Some(idx) = sealed_idx {
+                                if info.cur_block_idx > idx
+                                    || (info.cur_block_idx == idx && info.cur_block_offset > tail_off)
+                                {
+                                    // another consumer already went past this entry
+                                    drop(info);
+                                    continue;
+                                }
+                                info.cur_block_idx = idx;
+                                info.cur_block_offset = new_off;
+                                maybe_persist = if self.should_persist(&mut info, false) {
+                                    Some((idx as u64, new_off))
+                                } else {
+                                    None
+                                };
                             } else {
-                                None
-                            };
+                                info.tail_block_id = active_block.id;
+                                info.tail_offset = new_off;
+                                maybe_persist = if self.should_persist(&mut info, false) {
+                                    Some((tail_block_id | TAIL_FLAG, new_off))
+                                } else {
+                                    None
+                                };
+                            }
                         }
                         drop(info);
                         if checkpoint {
